@@ -173,6 +173,91 @@ def second_value(ctx):
     ctx.observe("rec~", S.record_desc(rec))
 
 
+def same_call(ctx):
+    """two values for one formal attribute arriving in ONE call (pair list): equal values collapse, different values raise"""
+    from prov.model import ProvException
+    from oracles import strict as S
+
+    k, j, entry = ctx.params["kind"], ctx.params["again"], ctx.params["entry"]
+    d = new_doc()
+    fa = formal(k)
+    given, expected = _given(ctx, d, k, j, mask_all=True)
+    a = fa[j]
+    if is_time_attr(a):
+        ti = ctx.choose("time2", 2)
+        newv = _time_value(ctx, "timerep2", ti)
+        same = expected[j][1] == TIMES[ti]
+    else:
+        loc2 = ctx.str("ref2", 2, 1, "name")
+        newv = _ref_value(ctx, d, "refrep2", loc2)
+        same = bool(expected[j][1] == EX + loc2)
+    pairs = [(x, v) for x, v in zip(fa, given)]
+    pos = ctx.choose("pos", 2)
+    pairs = pairs + [(a, newv)] if pos == 0 else [(a, newv)] + pairs
+    rec = None
+    try:
+        if entry == 0:
+            rec = d.new_record(kind_type(k), "en:r", pairs)
+        elif entry == 1:
+            # formal arguments through the factory's positional parameters, the extra value through other_attributes
+            formal_d = dict((x, v) for x, v in zip(fa, given))
+            rec = d.new_record(kind_type(k), "en:r", formal_d, [(a, newv)])
+        else:
+            cut = [p for p in pairs if p[0] != a]
+            rec = d.new_record(kind_type(k), "en:r", cut)
+            before = S.record_desc(rec)
+            rec.add_attributes([p for p in pairs if p[0] == a])
+        raised = False
+    except ProvException:
+        raised = True
+    if same:
+        ctx.check(not raised, "the same value twice for a formal attribute in one call raised ProvException")
+        _check_normal(ctx, rec, expected)
+    else:
+        ctx.check(raised, "two different values for a formal attribute given in one call were accepted")
+        if entry == 2:
+            # the refused call must not leave a second value behind
+            for x in rec.FORMAL_ATTRIBUTES:
+                ctx.check(len(rec.get_attribute(x)) <= 1, "a refused add_attributes call left a formal attribute with two values")
+        else:
+            ctx.check(len(list(d.get_records())) == 0, "a refused constructor call left a record in the bundle")
+    ctx.observe("raised", raised)
+
+
+SUBTYPE_FACTORIES = [("revision", "Revision"), ("quotation", "Quotation"), ("primary_source", "PrimarySource"), ("collection", "Collection")]
+
+
+def subtype_factory(ctx):
+    """revision()/quotation()/primary_source()/collection() add their PROV type to - not instead of - the caller's prov:type values"""
+    from prov.constants import PROV
+
+    fi = ctx.params["factory"]
+    fname, tname = SUBTYPE_FACTORIES[fi]
+    d = new_doc()
+    l1 = ctx.str("t", 2, 1, "name")
+    q1 = d.valid_qualified_name("ex:" + l1)
+    from prov.constants import PROV_TYPE
+
+    form = ctx.choose("form", 6)
+    other = [{"prov:type": q1}, [("prov:type", q1)], [("prov:type", q1), ("prov:type", PROV[tname])], {"ex:k": 1},
+             {PROV_TYPE: q1}, [(PROV_TYPE, q1)]][form]
+    if fname == "collection":
+        rec = d.collection("en:c", other)
+    else:
+        rec = getattr(d, fname)("en:g", "en:u", "en:act", None, None, "en:r" if ctx.bool("ident") else None, other)
+    types = sorted(t.uri for t in rec.get_asserted_types())
+    want = sorted(set([PROV[tname].uri] + ([EX + l1] if form != 3 else [])))
+    ctx.check(len(types) == len(want), "%s(): asserted types are %d values, expected %d" % (fname, len(types), len(want)))
+    for t, w in zip(types, want):
+        ctx.check(t == w, "%s(): a caller-supplied prov:type was lost or replaced" % fname)
+    if fname != "collection":
+        _check_normal(ctx, rec, [("ref", "http://n/g"), ("ref", "http://n/u"), ("ref", "http://n/act"), None, None])
+    if form == 3:
+        ctx.check(list(rec.get_attribute("ex:k")) == [1], "%s(): other attribute lost" % fname)
+    ctx.observe("types", len(types))
+
+
+INT_LEX = [("+5", 5), ("0042", 42), ("-0", 0), ("+0", 0), ("-007", -7), ("+2147483648", 2147483648)]
 LIT_KINDS = ["xsd:int", "xsd:long", "xsd:string", "xsd:anyURI", "xsd:boolean", "xsd:double", "xsd:dateTime"]
 BOOL_LEX = [("true", True), ("false", False), ("1", True), ("0", False)]
 DOUBLE_LEX = [("0.1", 0.1), ("1e300", 1e300), ("-0.0", -0.0), ("1.2345678901234567", 1.2345678901234567), ("5", 5.0)]
@@ -192,8 +277,12 @@ def literal_normalisation(ctx):
           "xsd:boolean": pc.XSD_BOOLEAN, "xsd:double": pc.XSD_DOUBLE, "xsd:dateTime": pc.XSD_DATETIME}[LIT_KINDS[lk]]
     name = LIT_KINDS[lk]
     if name in ("xsd:int", "xsd:long"):
-        n = ctx.bigint("n")
-        lex, native = str(n), n
+        il = ctx.choose("intlex", len(INT_LEX) + 1)
+        if il == 0:
+            n = ctx.bigint("n")
+            lex, native = str(n), n
+        else:
+            lex, native = INT_LEX[il - 1]  # signed / zero-padded lexical forms of xsd:integer types
     elif name == "xsd:string":
         s = ctx.str("s", 3, 0, "any")
         lex, native = s, s
@@ -299,6 +388,19 @@ def _second_shards(tier):
     return out
 
 
+def _same_call_shards(tier):
+    out = []
+    for k in range(18):
+        for j in range(_nformal(k)):
+            for e in ((0, 2) if tier == "quick" else (0, 1, 2)):
+                if tier == "quick" and (k + j) % 2 and e == 2:
+                    continue
+                if k == 17 and j == 1:
+                    continue  # not claimed: several prov:entity values of one membership given in a single call
+                out.append({"kind": k, "again": j, "entry": e})
+    return out
+
+
 def _lit_shards(tier):
     return [{"lit": l, "entry": e} for l in range(len(LIT_KINDS)) for e in range(3)]
 
@@ -321,6 +423,17 @@ OBLIGATIONS = [
                     "is a no-op, with a different value raises ProvException and leaves the record unchanged, with a first value stores it normalised",
                bounds="one record (all optional arguments present, or none), one follow-up call; symbolic local names |local|<=2 (equal/different decided by the solver)",
                assumptions=_ASSUME, functions=["prov.model.ProvRecord.add_attributes"], budget_s=(150, 600), per_path_s=(20, 40)),
+    Obligation(name="same_call", fn=same_call, shards=_same_call_shards,
+               desc="two values for one formal attribute given in ONE call (pair list to new_record, attributes + other_attributes, or one add_attributes call), "
+                    "in either order: equal values (any representation) collapse to one, different values raise ProvException and leave nothing half-added",
+               bounds="one record, all formal arguments present, one duplicated attribute; symbolic local names |local|<=2", assumptions=_ASSUME,
+               functions=["prov.model.ProvRecord.add_attributes", "prov.model.ProvBundle.new_record"], budget_s=(150, 600), per_path_s=(20, 40)),
+    Obligation(name="subtype_factory", fn=subtype_factory, shards=[{"factory": i} for i in range(len(SUBTYPE_FACTORIES))],
+               desc="revision()/quotation()/primary_source()/collection() with caller-supplied prov:type values (dict or pair list, possibly repeating the PROV type): "
+                    "the asserted types are the union, formal attributes stay normalised",
+               bounds="one record; symbolic type local name |local|<=2; 6 other_attributes forms (dict / pair list, 'prov:type' / PROV_TYPE keys)", assumptions=_ASSUME,
+               functions=["prov.model.ProvBundle.revision/quotation/primary_source/collection", "prov.model.ProvRecord.add_asserted_type"],
+               budget_s=(60, 200), per_path_s=(20, 40)),
     Obligation(name="literal_normalisation", fn=literal_normalisation, shards=_lit_shards,
                desc="Literal(lexical, xsd:int|long|string|anyURI|boolean|double|dateTime) and the native Python value are stored identically, "
                     "through dict, pair-list and add_attributes entry; non-formal attributes accumulate a set",
